@@ -145,6 +145,11 @@ def run_case(case):
     wa, wb = rng.choice([1, 2, 255]), rng.choice([1, 2, 255])
     A = W.stack('A', max_cmdt_packets=wa)
     B = W.stack('B', max_cmdt_packets=wb)
+    # an unrelated slow periodic application timer on both stacks in a third of the cases (its passes fall between a hostile frame and the
+    # time-out of the session that frame opened)
+    if random.Random(case['seed'] ^ 0xB7).random() < 0.33:
+        A.ecu.add_timer(random.Random(case['seed'] ^ 0xB8).choice([0.4, 2.0, 3.0]), lambda cookie: True)
+        B.ecu.add_timer(random.Random(case['seed'] ^ 0xB9).choice([0.7, 2.5]), lambda cookie: True)
     ca = W.ca(A, SELF, identity_number=1)
     cb = W.ca(B, PEER, identity_number=2)
     W.listen_ca(ca, 'A')
